@@ -89,7 +89,7 @@ def run(ctx):
                    "stop marker and are not yet reclaimable are destroyed without being invoked", detail,
                    site="%s@loop-exit" % inst)
         # R2c caller side: cursor advanced by the callee's count, refill only when drained
-        rec_calls = [n for n in ig.ev_nodes() if n.id in live and n.frame.id == 0 and n.ev["e"] == "call"
+        rec_calls = [n for n in ig.ev_nodes() if n.id in live and n.frame.owner_id == 0 and n.ev["e"] == "call"
                      and n.inlined and any(True for _ in L.call_nodes(IG(ig.tu.fns[n.ev["cid"]], inline=lambda a, b, c: False),
                                                               name="operator()"))]
         for p in pops:
